@@ -181,6 +181,26 @@ CHECKS = {
         "known findings (K2, K3, K11) are attributed through deviation "
         "models, everything else is a violation.",
         "DESIGN.md 3/C08"),
+    "C15": (
+        "fault_enumeration",
+        "exhaustive option-pair enumeration + Hypothesis histories "
+        "(differential cache vs no cache) + enumeration of crash points and "
+        "two-writer interleavings via file-system interposition in child "
+        "processes",
+        "Child processes render configurations with CHAMELEON_CACHE set; the "
+        "outcome must equal the same configuration rendered without a cache. "
+        "All single-option variants of a probe configuration are compiled "
+        "with the base in both orders, in one process and across two "
+        "processes (exhaustive), plus drawn multi-option histories. The "
+        "file-system steps of storing a module are listed by interposition; "
+        "a writer is killed before EVERY step and a fresh reader must render "
+        "correctly and find no unparsable entry; two stopped-at-every-step "
+        "writers of one entry are played through enumerated and drawn "
+        "interleavings.",
+        "Crash = process death; steps observed at the Python file-system "
+        "API (importlib's byte-code write is one step); reference outcome "
+        "computed without cache in the checking process.",
+        "DESIGN.md 3/C15"),
     "C16": (
         "exploration",
         "Hypothesis stateful (rule-based) testing against a dictionary model "
